@@ -1,6 +1,7 @@
 package main
 
 import (
+	"go/constant"
 	"os"
 	"go/token"
 	"fmt"
@@ -129,7 +130,7 @@ func runC06(c *Ctx) {
 				if !isFA {
 					continue
 				}
-				if _, fresh := st.Val.(*ssa.Alloc); !fresh {
+				if !freshPerIteration(ge.info(rb), st) {
 					continue
 				}
 				if strings.HasSuffix(ge.pv.addrAtom(fa, nil), ".StateElement") {
@@ -514,4 +515,141 @@ func touchesExisting(p *Program, fn *ssa.Function, depth int) bool {
 		}
 	}
 	return false
+}
+
+// freshPerIteration: the address stored by st is a different object on every execution of st: a local allocated
+// inside every loop that contains the store, or a slot of a slice made in this function whose index is a counter
+// that strictly increases between two executions of the store and is never reset (uniqueCounter).
+func freshPerIteration(fi *fnInfo, st *ssa.Store) bool {
+	b := st.Block()
+	switch v := st.Val.(type) {
+	case *ssa.Alloc:
+		for _, h := range fi.loopsOf[b] {
+			if !fi.loopBody[h][v.Block()] {
+				return false // one object shared by all iterations
+			}
+		}
+		return true
+	case *ssa.IndexAddr:
+		base := v.X
+		for {
+			if sl, ok := base.(*ssa.Slice); ok {
+				base = sl.X
+				continue
+			}
+			break
+		}
+		mk, ok := base.(*ssa.MakeSlice)
+		if !ok {
+			return false
+		}
+		for _, h := range fi.loopsOf[b] {
+			if fi.loopBody[h][mk.Block()] {
+				return false // a new backing array per iteration would be fine too, but then the index argument differs; not read
+			}
+		}
+		return uniqueCounter(fi, v.Index, b)
+	}
+	return false
+}
+
+func stripAddConst(v ssa.Value) (ssa.Value, int64, bool) {
+	var sum int64
+	for {
+		switch x := v.(type) {
+		case *ssa.BinOp:
+			if x.Op != token.ADD {
+				return v, sum, true
+			}
+			if k, ok := x.Y.(*ssa.Const); ok && k.Value != nil {
+				if n, exact := constant.Int64Val(k.Value); exact {
+					sum += n
+					v = x.X
+					continue
+				}
+			}
+			if k, ok := x.X.(*ssa.Const); ok && k.Value != nil {
+				if n, exact := constant.Int64Val(k.Value); exact {
+					sum += n
+					v = x.Y
+					continue
+				}
+			}
+			return v, sum, true
+		case *ssa.Convert:
+			v = x.X
+			continue
+		}
+		return v, sum, true
+	}
+}
+
+// uniqueCounter: idx, used in block use, takes a different value on every execution of that block.
+func uniqueCounter(fi *fnInfo, idx ssa.Value, use *ssa.BasicBlock) bool {
+	base, _, _ := stripAddConst(idx)
+	p0, ok := base.(*ssa.Phi)
+	if !ok {
+		return false
+	}
+	loops := fi.loopsOf[use]
+	if len(loops) == 0 {
+		return false
+	}
+	inAnyLoop := func(b *ssa.BasicBlock) bool {
+		for _, h := range loops {
+			if fi.loopBody[h][b] {
+				return true
+			}
+		}
+		return false
+	}
+	// innermost loop containing the use
+	inner := loops[0]
+	for _, h := range loops {
+		if len(fi.loopBody[h]) < len(fi.loopBody[inner]) {
+			inner = h
+		}
+	}
+	if p0.Block() != inner {
+		return false
+	}
+	set := map[*ssa.Phi]bool{p0: true}
+	work := []*ssa.Phi{p0}
+	for len(work) > 0 {
+		p := work[0]
+		work = work[1:]
+		isHeader := false
+		for _, h := range loops {
+			if h == p.Block() {
+				isHeader = true
+			}
+		}
+		for i, e := range p.Edges {
+			pb := p.Block().Preds[i]
+			if k, isK := e.(*ssa.Const); isK {
+				_ = k
+				if inAnyLoop(pb) {
+					return false // reset inside a loop that contains the use
+				}
+				continue
+			}
+			eb, add, _ := stripAddConst(e)
+			q, isPhi := eb.(*ssa.Phi)
+			if !isPhi || add < 0 {
+				return false
+			}
+			// around the innermost loop the counter must move
+			if p == p0 && isHeader && fi.loopBody[inner][pb] && !(q == p0 && add > 0) {
+				return false
+			}
+			if !set[q] {
+				if !inAnyLoop(q.Block()) {
+					return false
+				}
+				set[q] = true
+				work = append(work, q)
+			}
+		}
+	}
+	return true
 }
